@@ -206,13 +206,15 @@ def selected_ids(a, b, F):
 # ------------------------------------------------------------------ generation
 
 NAMES = ["a", "b", "c", "d", "e"]
+ODD = ["a-b", "a.c", "b+", "c d"]     # "<dir><byte below '/'>...": sorts between "<dir>" and "<dir>/x"
 CONTENTS = [b"", b"1", b"2"]
 TARGETS = ["t1", "t2"]
 
 
 def _free_name(rng, t, parent, exclude=()):
     used = {e[2] for e in t if e[1] == parent}
-    free = [n for n in NAMES if n not in used and n not in exclude]
+    pool = NAMES + ([rng.choice(ODD)] if rng.random() < 0.25 else [])
+    free = [n for n in pool if n not in used and n not in exclude]
     return rng.choice(free) if free else None
 
 
@@ -370,6 +372,16 @@ def filters_for(rng, a, b, extras, nsingle, nsub):
     for _ in range(nsub):
         k = rng.choice([2, 2, 3, 3, 4, 5])
         out.append(sorted(rng.sample(pool, min(k, len(pool)))))
+    # redundant filters: a directory, something nested in it, and a (real or nonexistent) sibling whose name
+    # is the directory name + a byte below '/', so that it sorts between the directory and the nested path
+    nested = [p for p in pool if "/" in p]
+    rng.shuffle(nested)
+    for p in nested[:2]:
+        parts = p.split("/")
+        d = "/".join(parts[:rng.randint(1, len(parts) - 1)])
+        sib = d + rng.choice(["-old", ".bak", " 2", "+", ",v", "-b", ".c"])
+        real = [q for q in pool if q.startswith(d) and len(q) > len(d) and q[len(d)] < "/" ]
+        out.append(sorted({d, rng.choice(real) if real and rng.random() < 0.5 else sib, p}))
     return out
 
 
@@ -440,6 +452,15 @@ def corpus():
     b = [R, e(1, 0, "q", D), e(2, 1, "d", D), e(3, 2, "f", content=b"2"), e(4, 2, "g", ex=True), e(5, 2, "l", SY, target="t2")]
     for F in (["q/d/f"], ["p/d/f"], ["q/d/g"], ["p/d/l"], ["p/d/f", "q/d/g"], ["q/d"]):
         out.append(mk(a, b, F=F))
+    # W7: redundant filter {D, D<byte below '/'>.., D/nested}: the nested path must not be scanned twice
+    a = [R, e(1, 0, "src", D), e(2, 1, "main", content=b"1"), e(3, 0, "src-old"), e(4, 1, "sub", D), e(5, 4, "k", ex=False),
+         e(6, 0, "src.bak", D)]
+    b = [R, e(1, 0, "src", D), e(2, 1, "main", content=b"2"), e(3, 0, "src-old"), e(4, 1, "sub", D), e(5, 4, "k", ex=True),
+         e(6, 0, "src.bak", D), e(7, 4, "n")]
+    for F in (["src", "src-old", "src/main"], ["src", "src.bak", "src/sub"], ["src", "src 2", "src/sub/k"],
+              ["src", "src/main"], ["src", "src/sub", "src/sub/k", "src-old"], ["src/sub", "src/sub+", "src/sub/n"]):
+        out.append(mk(a, b, ["src/sub/u", "src/v"], F, False, True, False))
+        out.append(mk(a, b, ["src/sub/u", "src/v"], F, True, False, False))
     # the dirstate fast path reports id 5 twice
     a = [R, e(1, 0, "d", FI, b""), e(2, 0, "c", D), e(3, 2, "a", FI, b""), e(4, 2, "d", D), e(5, 0, "e", D)]
     b = [R, e(1, 0, "d", FI, b""), e(2, 0, "c", D), e(5, 2, "c", D), e(6, 2, "a", FI, b"2")]
@@ -751,7 +772,17 @@ def violations(inp, obs):
         vs, us = obs[k]
         ids = [c[0] for c in vs]
         if len(ids) != len(set(ids)):
-            tags.add("dup:" + name)
+            if k == 4 and sel is not None and all(_under_a_move(c, spec_all) for c in vs if ids.count(c[0]) > 1):
+                # the only duplicate known of the compiled walker: it adds the other side of every rename it
+                # meets to its search set, so a moved id - or anything at/below the old or new location of a
+                # moved id - can be covered by two search roots and is then met twice
+                tags.add("dup:" + name)
+            elif k == 4:
+                tags.add("dup-same-root:" + name)
+            else:
+                tags.add("dup:" + name)
+        if len(us) != len(set(us)):
+            tags.add("dup-unversioned:" + name)
         for c in vs:
             s = spec_all.get(c[0])
             if s is None or json.dumps(s, default=repr) != json.dumps(c, default=repr):
@@ -785,6 +816,19 @@ def violations(inp, obs):
     return sorted(tags)
 
 
+def _under_a_move(c, spec_all):
+    """a path of change c lies at or below the old or new location of some id whose (parent, name) changed"""
+    moved = [m for m in spec_all.values() if m[3][0] and m[3][1] and (m[4][0] != m[4][1] or m[5][0] != m[5][1])]
+    for p in c[1]:
+        if p is None:
+            continue
+        for m in moved:
+            for q in m[1]:
+                if q is not None and (p == q or q == "" or p.startswith(q + "/")):
+                    return True
+    return False
+
+
 # tag -> known-finding id (see notes/C10.md); a failing case is explained only if ALL its tags are
 FINDING_OF_TAG = {}
 
@@ -797,7 +841,7 @@ def _finding_of(tag, inp):
         return "C10-filtered-path-collision"
     if tag == "differs:dirstate/generic_wt" and filt:
         return "C10-dirstate-filter-closure-differs"
-    if tag == "dup:dirstate" and filt:
+    if tag == "dup:dirstate" and filt:     # cross-root moves only, see violations()
         return "C10-dirstate-duplicate"
     if tag == "crash:dirstate:AssertionError" and filt and _dir_to_nondir(inp):
         return "C10-dirstate-enotdir-crash"
